@@ -2,8 +2,8 @@
 
    The statements below are about the hand model coq/Robust/RobustModel.v (tied to the C++ by
    tools/props/c15.py: the extracted model is run on the graph dumped after loading every corrupted
-   file and must predict every digest of the battery, the order PrettySortBlocks produces, and
-   "terminates / diverges" for the two traversals that keep no visited set).  They hold for
+   file and must predict every digest of the battery and the order PrettySortBlocks produces).
+   They hold for
    ARBITRARY graphs: any reference may hold any number.
 
    What is NOT here: absence of memory errors / undefined behaviour in the C++ -- that is observed
@@ -99,86 +99,54 @@ Theorem C15_pretty_sort_no_fault : forall n children entities before is_coll scr
 Proof. exact pretty_sort_no_fault. Qed.
 Print Assumptions C15_pretty_sort_no_fault.
 
-(* total with the explicit fuel (n+1)(R+1)+1 whenever the calls SortCollision makes BEFORE marking
-   its parent admit a rank bounded by R (i.e. contain no cycle); [script] is arbitrary *)
-Theorem C15_pretty_sort_total : forall n children entities before is_coll script (rank : N -> nat) (R : nat),
-  (forall p c, rb_valid n p = true -> In c (rb_pre_targets n children entities before p) -> (rank c < rank p)%nat) ->
-  (forall p, (rank p <= R)%nat) ->
-  forall roots, exists st,
-    rb_pretty_sort n children entities before is_coll script (S ((N.to_nat n + 1) * (R + 1))) roots = Ok st
-    /\ wf n st.
+(* PrettySortBlocks is total for EVERY graph, every kind assignment and every script, within the
+   explicit fuel numBlocks + 2.  (Before the repair of C15-sortcollision-cycle SortCollision recursed
+   before marking its parent and this statement was false: the former witness is C15_ex_self below.) *)
+Theorem C15_pretty_sort_total : forall n children entities before is_coll script roots,
+  exists st,
+    rb_pretty_sort n children entities before is_coll script (S (S (N.to_nat n))) roots = Ok st /\ wf n st.
 Proof. exact pretty_sort_total. Qed.
 Print Assumptions C15_pretty_sort_total.
 
-(* no bhk blocks / constraints at all: every graph, fuel n + 2 *)
-Theorem C15_pretty_sort_total_no_bhk : forall n children entities before is_coll script roots,
-  (forall p, entities p = []) -> (forall c, before c = false) ->
-  exists st, rb_pretty_sort n children entities before is_coll script (S (N.to_nat n + 1)) roots = Ok st.
-Proof. exact pretty_sort_total_no_bhk. Qed.
-Print Assumptions C15_pretty_sort_total_no_bhk.
+(* SortCollision from any entry point, any state: fuel = unvisited blocks + 2 *)
+Theorem C15_sort_collision_total : forall n children entities before (is_coll : N -> bool)
+    (script : N -> list rb_action) p st,
+  wf n st -> rb_valid n p = true ->
+  exists st', rb_sort_collision n children entities before (S (S (unv st))) p st = Ok st' /\ wf n st'.
+Proof. exact sort_collision_total. Qed.
+Print Assumptions C15_sort_collision_total.
 
-(* on a dumped graph: a rank certificate accepted by the extracted checker => fuel (n+1)^2+1 suffices *)
-Theorem C15_pretty_sort_total_graph : forall g ranks ob unk,
-  rg_rank_ok g ranks = true -> exists order, rg_pretty_sort (rb_sort_fuel g) g ob unk = Ok order.
+Theorem C15_pretty_sort_total_graph : forall g ob unk,
+  exists order, rg_pretty_sort (rb_sort_fuel g) g ob unk = Ok order.
 Proof. exact rg_pretty_sort_total. Qed.
 Print Assumptions C15_pretty_sort_total_graph.
 
-(* SortCollision recurses before it marks its parent: with a set C of existing blocks each of which
-   makes such a call into C, a call on a member of C while C is unvisited never completes *)
-Theorem C15_sort_collision_diverges : forall n children entities before (C : list N),
-  (forall p, In p C -> rb_valid n p = true /\
-     exists c, In c C /\ In c (rb_pre_targets n children entities before p)) ->
-  forall fuel p st, In p C -> (forall x, In x C -> rb_is_visited st x = false) ->
-  forall st', rb_sort_collision n children entities before fuel p st <> Ok st'.
-Proof. exact sort_collision_diverges. Qed.
-Print Assumptions C15_sort_collision_diverges.
-
-Theorem C15_sort_collision_diverges_graph : forall g C, rg_closed_ok g C = true ->
-  forall fuel p st, In p C -> (forall x, In x C -> rb_is_visited st x = false) -> wf (vlen g) st ->
-  rb_sort_collision (vlen g) (rg_children g) (rg_entities g) (rg_before g) fuel p st = OutOfFuel.
-Proof. exact rg_sort_collision_diverges. Qed.
-Print Assumptions C15_sort_collision_diverges_graph.
-
-(* the totality statement for ALL graphs is false: NiNode -> bhkCollisionObject -> bhkRigidBody whose
-   shape reference is the body itself (replayed on the implementation: stack overflow) *)
-Theorem C15_sort_collision_total_refuted :
-  exists g, forall fuel, rg_pretty_sort fuel g false false = OutOfFuel.
-Proof. exact sort_collision_total_refuted. Qed.
-Print Assumptions C15_sort_collision_total_refuted.
-
-(* ---- the parent walk of GetNodeTransformToGlobal (no visited set) ---- *)
-Theorem C15_to_global_total : forall nc (rank : N -> nat),
-  (forall i q, rb_get_parent_node nc i = Some q -> (rank q < rank i)%nat) ->
-  forall fuel i steps, (rank i < fuel)%nat -> exists k, rb_to_global nc fuel i steps = Ok k.
+(* ---- the parent walk of GetNodeTransformToGlobal: total for every node graph (it keeps a visited
+        set since the repair of C15-node-cycle-global-transform-hang) ---- *)
+Theorem C15_to_global_total : forall nc fuel i visited,
+  NoDup visited /\ Forall (fun j => j < vlen nc) visited ->
+  (N.to_nat (vlen nc) - length visited < fuel)%nat ->
+  exists k, rb_to_global nc fuel i visited = Ok k.
 Proof. exact to_global_total. Qed.
 Print Assumptions C15_to_global_total.
 
-Theorem C15_to_global_diverges : forall nc (C : list N),
-  (forall p, In p C -> exists q, rb_get_parent_node nc p = Some q /\ In q C) ->
-  forall fuel i steps, In i C -> rb_to_global nc fuel i steps = OutOfFuel.
-Proof. exact to_global_diverges. Qed.
-Print Assumptions C15_to_global_diverges.
-
-Theorem C15_to_global_diverges_graph : forall g C, rb_pclosed_ok (rg_node_children g) C = true ->
-  forall fuel i, In i C -> rg_to_global fuel g i = OutOfFuel.
-Proof. exact rg_to_global_diverges. Qed.
-Print Assumptions C15_to_global_diverges_graph.
-
-(* a NiNode that lists itself as a child (replayed on the implementation: hang) *)
-Theorem C15_to_global_total_refuted : exists g i, forall fuel, rg_to_global fuel g i = OutOfFuel.
-Proof. exact to_global_total_refuted. Qed.
-Print Assumptions C15_to_global_total_refuted.
+Theorem C15_to_global_total_graph : forall g i, i < vlen g ->
+  exists k, rg_to_global (S (length g)) g i = Ok k.
+Proof. exact rg_to_global_total. Qed.
+Print Assumptions C15_to_global_total_graph.
 
 (* ---- the hypotheses are satisfiable ---- *)
-Example C15_ex_rank : rg_rank_ok rb_g_ok [0; 2; 1; 0] = true.
-Proof. reflexivity. Qed.
 Example C15_ex_sorted : rg_pretty_sort (rb_sort_fuel rb_g_ok) rb_g_ok false false = Ok [0; 3; 2; 1].
 Proof. reflexivity. Qed.
+(* the former witnesses: a self-referencing collision body (a closed set of before-parent calls) is sorted,
+   the walk from a node that is its own parent ends *)
 Example C15_ex_closed : rg_closed_ok rb_g_self [2] = true.
 Proof. reflexivity. Qed.
-Example C15_ex_no_rank : rg_rank_ok rb_g_self [0; 0; 0] = false.
+Example C15_ex_self : rg_pretty_sort (rb_sort_fuel rb_g_self) rb_g_self false false = Ok [0; 2; 1].
 Proof. reflexivity. Qed.
 Example C15_ex_parent_closed : rb_pclosed_ok (rg_node_children rb_g_loop) [0] = true.
+Proof. reflexivity. Qed.
+Example C15_ex_loop : rg_to_global 2 rb_g_loop 0 = Ok 1.
 Proof. reflexivity. Qed.
 Example C15_ex_tinv : TInv (mkHdr [mkBlock 0 7 [99; NPOS; 0] [5]; mkBlock 1 7 [1] []] 2 [7] 1 [0; 0] [0; 0] true).
 Proof. repeat split; cbn; try lia; repeat constructor; cbn; lia. Qed.
